@@ -1,11 +1,39 @@
-import MirProofs.Lemmas.Intervals
+import MirProofs.Lemmas.PyInt
 import MirGen.UtilInt
 /-!
   C13 — the interval pre-processing functions of `mir_eval/util.py` as REGENERATED from the source
   (`MirGen/UtilInt.lean`, translator part `utilint`) equal the hand-written model (`MirModel/Intervals.lean`).
 -/
 namespace Mir.C13.Gen
-open Mir Mir.Iv
+open Mir Mir.Iv Mir.PyI
+
+/-! ### validate_intervals, intervals_to_durations, intervals_to_boundaries -/
+
+theorem validate_intervals_eq_model (iv : Ivals) :
+    Mir.Gen.util.validate_intervals iv = validateIntervals iv := by
+  have h1 : anyB (List.map (fun v => decide (v < (0 : Rat))) (ravel iv))
+      = iv.any (fun x => decide (x.1 < 0) || decide (x.2 < 0)) := by
+    induction iv with
+    | nil => rfl
+    | cons x r ih => simp [anyB, ravel, entriesP] at ih ⊢; rw [ih]; simp [Bool.or_assoc]
+  have h2 : anyB (List.zipWith (fun a b => decide (a ≤ b)) (col1 iv) (col0 iv))
+      = iv.any (fun x => decide (x.2 ≤ x.1)) := by
+    induction iv with
+    | nil => rfl
+    | cons x r ih => simp [anyB, col0, col1] at ih ⊢
+  simp only [Mir.Gen.util.validate_intervals, validateIntervals, h1, h2]
+  by_cases c1 : (iv.any fun x => decide (x.1 < 0) || decide (x.2 < 0)) = true
+  · simp [c1, ndim2, shape1]; rfl
+  · by_cases c2 : (iv.any fun x => decide (x.2 ≤ x.1)) = true
+    · simp [c1, c2, ndim2, shape1]; rfl
+    · simp [c1, c2, ndim2, shape1]; rfl
+
+theorem intervals_to_durations_eq_model (iv : Ivals) :
+    Mir.Gen.util.intervals_to_durations iv = intervalsToDurations iv := by
+  simp only [Mir.Gen.util.intervals_to_durations, intervalsToDurations, validate_intervals_eq_model]
+  cases validateIntervals iv with
+  | error e => rfl
+  | ok u => simp [absV, diffAxis1, Except.map, bind, Except.bind, pure, Except.pure]
 
 theorem intervals_to_boundaries_eq_model (iv : Ivals) (q : Nat) :
     Mir.Gen.util.intervals_to_boundaries iv (q : Int) = .ok (intervalsToBoundaries iv q) := by
@@ -16,5 +44,238 @@ theorem intervals_to_boundaries_eq_model (iv : Ivals) (q : Nat) :
     | cons x r ih => simp [Mir.PyI.roundIv, entriesP, Mir.PyI.roundScalar] at ih ⊢; exact ih
   simp [Mir.Gen.util.intervals_to_boundaries, intervalsToBoundaries, Mir.PyI.unique, Mir.PyI.ravel, h]
   rfl
+
+/-- the documented default `q = 5` -/
+theorem intervals_to_boundaries_default (iv : Ivals) :
+    Mir.Gen.util.intervals_to_boundaries iv = .ok (intervalsToBoundaries iv) :=
+  intervals_to_boundaries_eq_model iv 5
+
+/-! ### boundaries_to_intervals -/
+
+theorem zip_slices (bs : List Rat) : List.zip (sliceTo bs (-1)) (sliceFrom bs 1) = pairs bs := by
+  have h1 : sliceFrom bs 1 = bs.tail := by
+    cases bs with
+    | nil => rfl
+    | cons x r => simp [sliceFrom, clipIndex]
+  have h2 : sliceTo bs (-1) = bs.dropLast := by
+    simp [sliceTo, clipIndex, List.dropLast_eq_take]
+  rw [h1, h2, pairs]
+  clear h1 h2
+  induction bs with
+  | nil => rfl
+  | cons x r ih =>
+    cases r with
+    | nil => rfl
+    | cons y r' => simp [List.dropLast] at ih ⊢; exact ih
+
+theorem boundaries_to_intervals_eq_model (bs : List Rat) :
+    Mir.Gen.util.boundaries_to_intervals bs = boundariesToIntervals bs := by
+  simp only [Mir.Gen.util.boundaries_to_intervals, boundariesToIntervals, zip_slices, allclose, unique]
+  by_cases hlen : bs.length = (usort bs).length
+  · simp only [if_pos hlen, if_pos hlen.symm]
+    cases hg : (bs.zip (usort bs)).all fun p => isclose p.1 p.2 <;>
+      simp [bind, Except.bind, pure, Except.pure, throw, throwThe, MonadExceptOf.throw]
+  · have hlen' : ¬ (usort bs).length = bs.length := fun h => hlen h.symm
+    simp only [if_neg hlen, if_neg hlen']
+    rcases hu : usort bs with _ | ⟨v, _ | ⟨v2, r⟩⟩
+    · rcases bs with _ | ⟨b, _ | ⟨b2, r⟩⟩
+      · simp [hu] at hlen
+      · simp [usort, insertU] at hu
+      · simp [bind, Except.bind, throw, throwThe, MonadExceptOf.throw]
+    · cases hg : bs.all fun b => isclose b v <;>
+        simp [hg, bind, Except.bind, pure, Except.pure, throw, throwThe, MonadExceptOf.throw]
+    · rcases bs with _ | ⟨b, _ | ⟨b2, r'⟩⟩
+      · simp [usort] at hu
+      · simp [usort, insertU] at hu
+      · simp [bind, Except.bind, throw, throwThe, MonadExceptOf.throw]
+
+/-! ### sort_labeled_intervals -/
+
+theorem sort_labeled_intervals_eq_model (xs : LI String) :
+    Mir.Gen.util.sort_labeled_intervals (ivals xs) (some (labels xs))
+      = .ok (ivals (sortLabeled xs), some (labels (sortLabeled xs))) := by
+  have h1 := takeIdx_argsort xs (fun x => x.1) (fun x => (x.1, x.2.1))
+  have h2 := takeIdx_argsort xs (fun x => x.1) (fun x => x.2.2)
+  simp only [takeIdx] at h1 h2
+  simp [Mir.Gen.util.sort_labeled_intervals, col0, ivals, labels, sortLabeled, List.map_map, Function.comp_def,
+    takeIdx, h1, h2, bind, Except.bind, pure, Except.pure]
+
+theorem sort_labeled_intervals_unlabeled {L : Type} (xs : LI L) :
+    Mir.Gen.util.sort_labeled_intervals (ivals xs) none = .ok (ivals (sortLabeled xs), none) := by
+  have h1 := takeIdx_argsort xs (fun x => x.1) (fun x => (x.1, x.2.1))
+  simp only [takeIdx] at h1
+  simp [Mir.Gen.util.sort_labeled_intervals, col0, ivals, sortLabeled, List.map_map, Function.comp_def,
+    takeIdx, h1, bind, Except.bind, pure, Except.pure]
+
+/-! ### adjust_events -/
+
+section events
+variable {L : Type}
+
+/-- how the zipped rows of the hand model are seen by the code: the time array and, when labels were given
+    (`g = some _` renders a label), the label list -/
+def unzipE (g : Option (L → String)) (out : List (Rat × L)) : List Rat × Option (List String) :=
+  (out.map (·.1), g.map fun g' => out.map fun x => g' x.2)
+
+/-- the `t_min` pass of the hand model -/
+def evMin (a : Rat) (minLab : L) (xs : List (Rat × L)) : Py (List (Rat × L)) :=
+  let k := match xs.dropWhile (fun x => decide (x.1 < a)) with
+    | [] => xs
+    | k => k
+  match k with
+  | [] => .error .indexError
+  | h :: _ => if a < h.1 then .ok ((a, minLab) :: k) else .ok k
+
+/-- the `t_max` pass of the hand model -/
+def evMax (b : Rat) (maxLab : L) (x1 : List (Rat × L)) : Py (List (Rat × L)) :=
+  let k := x1.takeWhile (fun x => decide (x.1 ≤ b))
+  match k.getLast? with
+  | none => .error .indexError
+  | some z => if z.1 < b then .ok (k ++ [(b, maxLab)]) else .ok k
+
+theorem adjustEvents_passes (xs : List (Rat × L)) (tmin tmax : Option Rat) (l1 l2 : L) :
+    adjustEvents xs tmin tmax l1 l2
+      = (match tmin with | none => .ok xs | some a => evMin a l1 xs) >>= fun x1 =>
+          match tmax with | none => .ok x1 | some b => evMax b l2 x1 := rfl
+
+theorem adjust_events_block1_eq (ls : Option (List String)) :
+    Mir.Gen.util.adjust_events_block1 ls = .ok ls := by
+  cases ls <;> rfl
+
+theorem not_ge_decide (u a : Rat) : (!decide (u ≥ a)) = decide (u < a) := by
+  by_cases h : u < a
+  · simp [h, not_le.2 h]
+  · simp [h, not_lt.1 h]
+
+theorem adjust_events_block2_eq (xs : List (Rat × L)) (g : Option (L → String)) (tmin : Option Rat)
+    (pre : String) (minLab : L) (hg : ∀ g' ∈ g, g' minLab = pre ++ "T_MIN") :
+    Mir.Gen.util.adjust_events_block2 tmin (unzipE g xs).1 (unzipE g xs).2 pre
+      = (match tmin with | none => Except.ok xs | some a => evMin a minLab xs).map (unzipE g) := by
+  cases tmin with
+  | none => cases g <;> rfl
+  | some a =>
+    have hq : (fun x : Rat × L => !decide (x.1 ≥ a)) = fun x => decide (x.1 < a) := by
+      funext x; exact not_ge_decide x.1 a
+    simp only [Mir.Gen.util.adjust_events_block2, unzipE, evMin, List.map_map, Function.comp_def]
+    rcases hd : xs.dropWhile (fun x => !decide (x.1 ≥ a)) with _ | ⟨k, r⟩
+    · rw [argwhere_nil_of (fun x : Rat × L => decide (x.1 ≥ a)) xs hd]
+      rw [hq] at hd
+      rw [hd]
+      cases xs with
+      | nil => cases g <;> simp [len, getItem, normIndex, bind, Except.bind, Except.map, pure, Except.pure]
+      | cons x r' =>
+        cases g with
+        | none => by_cases hx : a < x.1 <;>
+            simp [hx, len, bind, Except.bind, Except.map, pure, Except.pure, insertFront, unzipE]
+        | some g' =>
+          have hg' := hg g' rfl
+          by_cases hx : a < x.1 <;>
+            simp [hx, hg', len, bind, Except.bind, Except.map, pure, Except.pure, insertFront, unzipE]
+    · obtain ⟨t, ht⟩ := argwhere_cons_of (fun x : Rat × L => decide (x.1 ≥ a)) xs hd
+      have hdrop := drop_length_takeWhile (fun x : Rat × L => !decide (x.1 ≥ a)) xs
+      rw [hd] at hdrop
+      rw [ht]
+      rw [hq] at hd
+      rw [hd]
+      cases g with
+      | none => by_cases hx : a < k.1 <;>
+          simp [hx, hdrop, len, bind, Except.bind, Except.map, pure, Except.pure, insertFront, unzipE, ← List.map_drop]
+      | some g' =>
+        have hg' := hg g' rfl
+        by_cases hx : a < k.1 <;>
+          simp [hx, hg', hdrop, len, bind, Except.bind, Except.map, pure, Except.pure, insertFront, unzipE,
+            ← List.map_drop]
+
+theorem not_gt_decide (u b : Rat) : (!decide (u > b)) = decide (u ≤ b) := by
+  by_cases h : u ≤ b
+  · simp [h, not_lt.2 h]
+  · simp [h, not_le.1 h]
+
+theorem adjust_events_block3_eq (xs : List (Rat × L)) (g : Option (L → String)) (tmax : Option Rat)
+    (pre : String) (maxLab : L) (hg : ∀ g' ∈ g, g' maxLab = pre ++ "T_MAX") :
+    Mir.Gen.util.adjust_events_block3 tmax (unzipE g xs).1 (unzipE g xs).2 pre
+      = (match tmax with | none => Except.ok xs | some b => evMax b maxLab xs).map (unzipE g) := by
+  cases tmax with
+  | none => cases g <;> rfl
+  | some b =>
+    have hq : (fun x : Rat × L => !decide (x.1 > b)) = fun x => decide (x.1 ≤ b) := by
+      funext x; exact not_gt_decide x.1 b
+    simp only [Mir.Gen.util.adjust_events_block3, unzipE, evMax, List.map_map, Function.comp_def]
+    have key : ∀ K : List (Rat × L),
+        (do let p ← (pure (K.map (·.1), g.map fun g' => K.map fun x => g' x.2) : Py (List Rat × Option (List String)))
+            let t ← getItem p.1 (-1)
+            if t < b then
+              (do let ls ← (match p.2 with
+                    | some labels => pure (some (PyI.append labels (pre ++ "T_MAX")))
+                    | none => pure none : Py (Option (List String)))
+                  pure (p.1 ++ [b], ls))
+            else pure p)
+          = (match K.getLast? with
+              | none => Except.error PyErr.indexError
+              | some z => if z.1 < b then Except.ok (K ++ [(b, maxLab)]) else Except.ok K).map (unzipE g) := by
+      intro K
+      rcases hK : K.getLast? with _ | z
+      · cases g <;> simp [getItem_neg_one, List.getLast?_map, hK, bind, Except.bind, Except.map, pure, Except.pure]
+      · cases g with
+        | none => by_cases hz : z.1 < b <;>
+            simp [hz, getItem_neg_one, List.getLast?_map, hK, bind, Except.bind, Except.map, pure, Except.pure, unzipE]
+        | some g' =>
+          have hg' := hg g' rfl
+          by_cases hz : z.1 < b <;>
+            simp [hz, hg', getItem_neg_one, List.getLast?_map, hK, bind, Except.bind, Except.map, pure, Except.pure,
+              unzipE, PyI.append]
+    rcases hd : xs.dropWhile (fun x => !decide (x.1 > b)) with _ | ⟨k, r⟩
+    · rw [argwhere_nil_of (fun x : Rat × L => decide (x.1 > b)) xs hd]
+      rw [hq] at hd
+      rw [takeWhile_eq_self_of _ xs hd, ← key xs]
+      cases g <;> simp [len]
+    · obtain ⟨t, ht⟩ := argwhere_cons_of (fun x : Rat × L => decide (x.1 > b)) xs hd
+      have htake := take_length_takeWhile (fun x : Rat × L => !decide (x.1 > b)) xs
+      rw [ht, ← key]
+      rw [hq] at htake
+      cases g <;> simp [len, ← List.map_take, htake, hq]
+
+theorem adjust_events_eq_general (xs : List (Rat × L)) (g : Option (L → String)) (tmin tmax : Option Rat)
+    (pre : String) (minLab maxLab : L) (h1 : ∀ g' ∈ g, g' minLab = pre ++ "T_MIN")
+    (h2 : ∀ g' ∈ g, g' maxLab = pre ++ "T_MAX") :
+    Mir.Gen.util.adjust_events (unzipE g xs).1 (unzipE g xs).2 tmin tmax pre
+      = (adjustEvents xs tmin tmax minLab maxLab).map (unzipE g) := by
+  simp only [Mir.Gen.util.adjust_events, adjust_events_block1_eq, adjustEvents_passes]
+  have e1 := adjust_events_block2_eq xs g tmin pre minLab h1
+  simp only [bind, Except.bind] at e1 ⊢
+  rw [e1]
+  cases (match tmin with | none => Except.ok xs | some a => evMin a minLab xs) with
+  | error e => rfl
+  | ok x1 =>
+    have e2 := adjust_events_block3_eq x1 g tmax pre maxLab h2
+    simp only [Except.map]
+    rw [e2]
+    cases (match tmax with | none => Except.ok x1 | some b => evMax b maxLab x1) <;> rfl
+
+/-- `util.adjust_events` with labels, for ALL event lists, label lists of the same length and crop points
+    (value or exception class) -/
+theorem adjust_events_eq_model (xs : List (Rat × String)) (tmin tmax : Option Rat) (pre : String) :
+    Mir.Gen.util.adjust_events (xs.map (·.1)) (some (xs.map (·.2))) tmin tmax pre
+      = (adjustEvents xs tmin tmax (pre ++ "T_MIN") (pre ++ "T_MAX")).map
+          fun out => (out.map (·.1), some (out.map (·.2))) := by
+  have := adjust_events_eq_general xs (some id) tmin tmax pre (pre ++ "T_MIN") (pre ++ "T_MAX")
+    (fun g' hg => by cases hg; rfl) (fun g' hg => by cases hg; rfl)
+  have e : unzipE (some (id : String → String))
+      = fun out : List (Rat × String) => (out.map (·.1), some (out.map (·.2))) := by
+    funext out; simp [unzipE]
+  rw [e] at this
+  simpa [unzipE] using this
+
+/-- `util.adjust_events` without labels: the times are those of the hand model run on ANY labelling -/
+theorem adjust_events_unlabeled (xs : List (Rat × L)) (tmin tmax : Option Rat) (pre : String) (l1 l2 : L) :
+    Mir.Gen.util.adjust_events (xs.map (·.1)) none tmin tmax pre
+      = (adjustEvents xs tmin tmax l1 l2).map fun out => (out.map (·.1), none) := by
+  have := adjust_events_eq_general xs none tmin tmax pre l1 l2 (fun g' hg => by cases hg) (fun g' hg => by cases hg)
+  have e : unzipE (none : Option (L → String)) = fun out : List (Rat × L) => (out.map (·.1), none) := by
+    funext out; simp [unzipE]
+  rw [e] at this
+  simpa [unzipE] using this
+
+end events
 
 end Mir.C13.Gen
